@@ -240,3 +240,152 @@ theorem walk_pool_exhausted_late (g : Graph) (evs : List Event) (h : walk g = (e
     exact this
 
 end Purr
+
+namespace Purr
+
+/-- every ring-closure event that opens a number uses the least number (from 1) not open before it -/
+def LeastOpens : List Nat → List Event → Prop
+  | _, [] => True
+  | l, .join _ r :: es =>
+    (r.val ∉ l → 1 ≤ r.val ∧ ∀ m, 1 ≤ m → m < r.val → m ∈ l) ∧ LeastOpens (toggle l r.val) es
+  | l, .root _ :: es => LeastOpens l es
+  | l, .extend _ _ :: es => LeastOpens l es
+  | l, .pop _ :: es => LeastOpens l es
+
+theorem LeastOpens_append : ∀ (a b : List Event) (l : List Nat),
+    LeastOpens l (a ++ b) ↔ LeastOpens l a ∧ LeastOpens (openAfter l a) b
+  | [], b, l => by simp [LeastOpens, openAfter]
+  | e :: a, b, l => by
+    cases e with
+    | join bk r =>
+      simp only [List.cons_append, LeastOpens, openAfter]
+      rw [LeastOpens_append a b]
+      exact ⟨fun ⟨h1, h2, h3⟩ => ⟨⟨h1, h2⟩, h3⟩, fun ⟨⟨h1, h2⟩, h3⟩ => ⟨h1, h2, h3⟩⟩
+    | root k => simp only [List.cons_append, LeastOpens, openAfter]; exact LeastOpens_append a b l
+    | extend bk k => simp only [List.cons_append, LeastOpens, openAfter]; exact LeastOpens_append a b l
+    | pop n => simp only [List.cons_append, LeastOpens, openAfter]; exact LeastOpens_append a b l
+
+theorem LeastOpens_pops (l : List Nat) (n : Nat) : LeastOpens l (if n > 0 then [Event.pop n] else []) := by
+  split <;> simp [LeastOpens]
+
+theorem hit_ok_least {pool pool1 : Pool} {l : List Nat} (h : PoolEv l pool) {ab : Nat × Nat} {r : Rnum}
+    (hh : pool.hit ab = .ok r pool1) : r.val ∉ l → 1 ≤ r.val ∧ ∀ m, 1 ≤ m → m < r.val → m ∈ l := by
+  intro hnl
+  have hn := hit_ok hh
+  have hr1 : r.val = (pool.hitNat ab).1 := by rw [hn]
+  cases hf : pool.find ab with
+  | some k =>
+    exfalso
+    have hrk : r.val = k := by rw [hr1, hitNat_close_fst hf]
+    exact hnl ((h.same _).mpr (hrk ▸ find_mem_opens hf))
+  | none =>
+    have hspec := hit_open_spec h.inv hf
+    simp only at hspec
+    rw [← hr1] at hspec
+    exact ⟨hspec.1, fun m h1 h2 => (h.same m).mpr (hspec.2.2.1 m h1 h2)⟩
+
+theorem wkStep_least (g : Graph) (s : WState) (sid : Nat) (bond : Bond) (rest : List (Nat × Bond)) (l : List Nat) (h : PoolEv l s.pool) :
+    (∀ s' evs, wkStep g s sid bond rest = .cont s' evs → LeastOpens l evs) ∧
+    (∀ e evs, wkStep g s sid bond rest = .err e evs → LeastOpens l evs) ∧
+    (∀ p evs, wkStep g s sid bond rest = .panic p evs → LeastOpens l evs) := by
+  unfold wkStep
+  split
+  · exact ⟨fun _ _ h' => (by simp at h'), fun _ _ h' => (by simp at h'; obtain ⟨_, rfl⟩ := h'; trivial), fun _ _ h' => (by simp at h')⟩
+  · split
+    · exact ⟨fun _ _ h' => (by simp at h'), fun _ _ h' => (by simp at h'; obtain ⟨_, rfl⟩ := h'; trivial), fun _ _ h' => (by simp at h')⟩
+    · split
+      · exact ⟨fun _ _ h' => (by simp at h'), fun _ _ h' => (by simp at h'), fun _ _ h' => (by simp at h'; obtain ⟨_, rfl⟩ := h'; trivial)⟩
+      · rename_i chain popcount hu
+        simp only
+        split
+        · cases hh : s.pool.hit (sid, bond.tid) with
+          | ok r pool1 =>
+            refine ⟨?_, fun _ _ h' => (by simp at h'), fun _ _ h' => (by simp at h')⟩
+            intro s' evs h'
+            cases h'
+            rw [LeastOpens_append, openAfter_pops]
+            exact ⟨LeastOpens_pops l _, hit_ok_least h hh, trivial⟩
+          | panic n p' =>
+            refine ⟨fun _ _ h' => (by simp at h'), fun _ _ h' => (by simp at h'), ?_⟩
+            intro p evs h'
+            cases h'
+            exact LeastOpens_pops l _
+        · split
+          · refine ⟨fun _ _ h' => (by simp at h'), fun _ _ h' => (by simp at h'), ?_⟩
+            intro p evs h'; cases h'; exact LeastOpens_pops l _
+          · rename_i child hchild
+            generalize scanChild sid bond.tid child.kind child.bonds 0 = r
+            obtain ⟨kind, backs, pushes⟩ := r
+            simp only
+            split
+            · refine ⟨fun _ _ h' => (by simp at h'), ?_, fun _ _ h' => (by simp at h')⟩
+              intro e evs h'; cases h'; exact LeastOpens_pops l _
+            · split
+              · refine ⟨fun _ _ h' => (by simp at h'), ?_, fun _ _ h' => (by simp at h')⟩
+                intro e evs h'; cases h'; exact LeastOpens_pops l _
+              · refine ⟨?_, fun _ _ h' => (by simp at h'), fun _ _ h' => (by simp at h')⟩
+                intro s' evs h'
+                cases h'
+                rw [LeastOpens_append, openAfter_pops]
+                exact ⟨LeastOpens_pops l _, trivial⟩
+            · refine ⟨fun _ _ h' => (by simp at h'), ?_, fun _ _ h' => (by simp at h')⟩
+              intro e evs h'; cases h'; exact LeastOpens_pops l _
+
+theorem rootLoop_least (g : Graph) : ∀ (fuel : Nat) (s : WState) (l : List Nat), PoolEv l s.pool →
+    LeastOpens l (rootLoop g fuel s).1
+  | 0, s, l, _ => by simp [rootLoop, LeastOpens]
+  | fuel + 1, s, l, h => by
+    rw [rootLoop.eq_def]
+    simp only
+    cases hst : s.stack with
+    | nil => trivial
+    | cons p rest =>
+      obtain ⟨sid, bond⟩ := p
+      simp only
+      obtain ⟨hc, he, hp⟩ := wkStep_least g s sid bond rest l h
+      cases hw : wkStep g s sid bond rest with
+      | err e evs => exact he e evs hw
+      | panic p evs => exact hp p evs hw
+      | cont s' evs =>
+        simp only
+        rw [LeastOpens_append]
+        exact ⟨hc s' evs hw, rootLoop_least g fuel s' (openAfter l evs) ((wkStep_pool g s sid bond rest l h).2 s' evs hw)⟩
+
+theorem compLoop_least (g : Graph) (fuel : Nat) : ∀ (ids : List Nat) (s : WState) (l : List Nat), PoolEv l s.pool →
+    LeastOpens l (compLoop g fuel ids s).1
+  | [], _, _, _ => by simp [compLoop, LeastOpens]
+  | id :: ids, s, l, hl => by
+    simp only [compLoop]
+    split
+    · exact compLoop_least g fuel ids s l hl
+    · cases hroot : g[id]? with
+      | none => simp [LeastOpens]
+      | some root =>
+        simp only
+        have hr := rootLoop_pool g fuel { s with visited := id :: s.visited, stack := root.bonds.map (fun b => (id, b)), chain := [id] } l hl
+        have hle := rootLoop_least g fuel { s with visited := id :: s.visited, stack := root.bonds.map (fun b => (id, b)), chain := [id] } l hl
+        generalize rootLoop g fuel { s with visited := id :: s.visited, stack := root.bonds.map (fun b => (id, b)), chain := [id] } = r at hr hle
+        obtain ⟨es, v, s1⟩ := r
+        simp only at hr hle ⊢
+        cases v with
+        | ok =>
+          simp only
+          show LeastOpens l (Event.root root.kind :: (es ++ (compLoop g fuel ids s1).1))
+          simp only [LeastOpens]
+          rw [LeastOpens_append]
+          exact ⟨hle, compLoop_least g fuel ids s1 (openAfter l es) (hr.2 rfl)⟩
+        | err e => simp only; show LeastOpens l (Event.root root.kind :: es); simp only [LeastOpens]; exact hle
+        | panic p => simp only; show LeastOpens l (Event.root root.kind :: es); simp only [LeastOpens]; exact hle
+
+/-- along the whole traversal of any adjacency list, every ring closure is opened with the smallest number from 1
+    upward that is not open in what has been handed to the follower so far -/
+theorem walk_opens_least (g : Graph) : LeastOpens [] (walk g).1 := by
+  unfold walk
+  cases hv : validate g with
+  | some e => simp [LeastOpens]
+  | none =>
+    simp only
+    have hinit : PoolEv [] Pool.init := ⟨Pool.inv_init, by simp [Pool.opens, Pool.init], by simp, by simp [Pool.opens, Pool.init]⟩
+    exact compLoop_least g (walkFuel g) (List.range g.length) ⟨[], [], [], .init⟩ [] hinit
+
+end Purr
